@@ -2,7 +2,7 @@
 # usage: tools/try_seed.sh <ID> [check ids...]  - apply seeded/<ID>/patch.diff to /repo, run the checks, undo
 set -u
 ID=$1; shift
-CHECKS=${@:-$ID}
+CHECKS=${@:-${ID%%-*}}
 cd /repo && git status --short | grep -q . && { echo "/repo not clean"; exit 2; }
 git -C /repo apply /verif/seeded/$ID/patch.diff || { echo "patch does not apply"; exit 2; }
 for c in $CHECKS; do
